@@ -70,6 +70,9 @@ EXOTIC_TREES = [
     ['a', [[':instance-of', ['b', [['/', 'beta']]]], [':ARG0-of', ['c', [['/', 'go-01']]]]]],
     ['a', [['/', None], [':ARG0-of', ['b', [['/', 'beta']]]]]],
     ['a', [[':ARG1-of', ['b', [[':ARG0-of', ['c', []]]]]]]],
+    # an empty node as the target of a relation: (a / alpha :ARG0 ()) reads as (a :ARG0 None), (None :instance None)
+    ['a', [['/', 'alpha'], [':ARG0', [None, []]]]],
+    ['a', [['/', 'alpha'], [':ARG0', [None, []]], [':ARG1', ['b', [['/', 'beta']]]]]],
 ]
 
 ERR_RE = re.compile(r'^# ::error-(\d+) (.*)$')
@@ -93,13 +96,17 @@ def plan(rng, idx, tier):
     for i in range(nsrc):
         r = rng.sub('src', i)
         ng = r.weighted([(0, 1), (1, 5), (2, 3), (3, 1)])
+        all_bad = False
         if idx % 500 == 250 and i == 0:
-            ng = r.sub('many').pick([130, 300, 900])      # thresholds in the number of graphs / of bad graphs
+            ng = r.sub('many').pick([130, 256, 300, 512, 900])      # thresholds in the number of graphs / of bad graphs
+            all_bad = ng in (256, 512)      # exactly 256 / 512 offending graphs: an exit status is eight bits wide
+            if all_bad:
+                bad_src.add(i)
         graphs = []
         bad_at = r.randrange(ng) if (i in bad_src and ng) else None
         for j in range(ng):
             gr = r.sub('g', j)
-            bad = (j == bad_at) or (i in bad_src and gr.chance(0.3))
+            bad = (j == bad_at) or (i in bad_src and gr.chance(0.3)) or all_bad
             ccfg = gcontent.ContentCfg(max_nodes=gr.weighted([(1, 3), (2, 3), (3, 3), (4, 3), (9, 1)]),
                                        invalid_roles=(gr.pick([0.3, 0.6, 1.0]) if bad else 0.0),
                                        p_inverted_attr=0.05,
@@ -284,7 +291,8 @@ def execute(trace):
         res.violate('cli', 'exception-escaped-main', error=digest.canon_exc(r.exc), **detail)
     else:
         want_exit = 1 if (opts.get('check') and any_bad) else 0
-        if r.exit != want_exit:
+        # "exits non-zero exactly when ...": which non-zero value is not the statement's business
+        if (r.exit != 0) != (want_exit != 0):
             res.violate('exit', 'exit-status-wrong', expected=want_exit, got=r.exit,
                         offending=expected, **detail)
         if r.stdout_error is not None:
